@@ -1127,11 +1127,16 @@ def paramName3 {V : Type} (cparams : List (String × PRef3 V)) : PRef3 V → Str
   | .val p => p.name
   | .ref _ n => match alookup n cparams with | some (.val q) => q.name | _ => ""
 
-/-- FromV3Operation fails with "could not find a name for request body": the operation has an inline request
-    body that does not carry its original name (c26cd6a; what formDataBody builds never does) and parameters
-    named `body` and `requestBody` -/
+/-- needsBodyName (c26cd6a, bfa9f46): FromV3Operation needs the free name only for an inline request body that
+    does not carry its original name and has a media type that is not a form media type -/
+def needsBodyName {V : Type} : Option (BRef3 V) → Bool
+  | some (.val b) => !b.origName && b.mimes.any (fun m => !isFormMime m)
+  | _ => false
+
+/-- FromV3Operation fails with "could not find a name for request body": the name is needed and the parameters
+    are named `body` and `requestBody` -/
 def opNameClash {V : Type} (cparams : List (String × PRef3 V)) (o : Op3 V) : Bool :=
-  (match o.body with | some (.val b) => !b.origName | _ => false) && bodyParamNames.all (fun n => o.params.any (fun p => paramName3 cparams p == n))
+  needsBodyName o.body && bodyParamNames.all (fun n => o.params.any (fun p => paramName3 cparams p == n))
 
 /-- outcome of FromV3 -/
 inductive BackRes (V : Type) where
